@@ -290,6 +290,19 @@ fn delays_for(profile: DelayProfile, n: usize, j: u64, step: u64, rng: &mut Rng,
 pub fn gen_stream(desc: &ArrDesc, horizon: u64, max_events: usize, rng: &mut Rng, stats: &mut [u64; 6], force_dense: bool) -> Stream {
     match desc {
         ArrDesc::Never | ArrDesc::Poisson(..) => Stream::Leaf(vec![]),
+        ArrDesc::User(t, k) => {
+            // the process its author has in mind: k simultaneous events every T
+            let phase = if force_dense { 0 } else { rng.below((*t).max(1)) };
+            let mut v = Vec::new();
+            let mut x = phase;
+            while x <= horizon && v.len() < max_events {
+                for _ in 0..(*k).max(1) {
+                    v.push(x);
+                }
+                x += (*t).max(1);
+            }
+            Stream::Leaf(v)
+        }
         ArrDesc::Periodic(t) => {
             let phase = if force_dense { 0 } else { rng.below(*t) };
             let mut v = Vec::new();
@@ -409,6 +422,24 @@ pub fn stream_admissible(desc: &ArrDesc, stream: &Stream) -> Result<(), String> 
             } else {
                 Err("Never releases nothing".into())
             }
+        }
+        (ArrDesc::User(t, k), Stream::Leaf(v)) => {
+            // at most k events per instant, instants on one grid of step T
+            let mut i = 0;
+            while i < v.len() {
+                let mut j = i;
+                while j < v.len() && v[j] == v[i] {
+                    j += 1;
+                }
+                if (j - i) as u64 > (*k).max(1) {
+                    return Err(format!("{} events at instant {}, burst size is {}", j - i, v[i], k));
+                }
+                if i > 0 && (v[i] < v[i - 1] || (v[i] - v[0]) % (*t).max(1) != 0) {
+                    return Err(format!("event at {} is off the grid of step {}", v[i], t));
+                }
+                i = j;
+            }
+            Ok(())
         }
         (ArrDesc::Periodic(t), Stream::Leaf(v)) => {
             for w in v.windows(2) {
@@ -635,7 +666,7 @@ pub fn c10_item(sh: &StreamShared, k: u64, acc: &mut Acc, note: &dyn Fn(&str)) {
         ArrDesc::Rc(_) => acc.counters.inc("model.rc"),
         ArrDesc::Never => acc.counters.inc("model.never"),
         ArrDesc::Extrap(_) => acc.counters.inc("model.extrapolating_curve"),
-        ArrDesc::Poisson(..) => {}
+        ArrDesc::Poisson(..) | ArrDesc::User(..) => {}
     }
     if caching {
         acc.counters.inc("models_with_caching_component");
